@@ -86,6 +86,7 @@ def run(case):
         for d in range(sa.dim):
             snap.append([(o.start, o.end, tuple(o.levels), float(o.benefit)) for o in drive.dw_objects(sa, d)])
         st_["before"] = snap
+        st_["lmax_before"] = list(sa.lmax)
 
     def after_refine(k):
         tag = "after refine %d" % k
@@ -139,6 +140,8 @@ def run(case):
             st_["allsel"] += 1
         if list(sa.lmax) != st_["lmax0"]:
             st_["raised"] = 1
+        if any(x - y >= 2 for x, y in zip(sa.lmax, st_["lmax_before"])):
+            st_["raised2"] = 1
         structure_invariants(out, sub, sa, tag)
 
     drive.run_history(sa, case, on_eval=on_eval, before_refine=before_refine, after_refine=after_refine)
@@ -153,6 +156,8 @@ def run(case):
         out.cls("rebalancing-rotation")
     if st_["raised"]:
         out.cls("lmax-raised")
+    if st_.get("raised2"):
+        out.cls("lmax-raised-by>=2-in-one-step")
     out.cls("version=%d" % case["version"], "mode=%d" % case["mode"])
     out.info = dict(max_steps=st_["steps"], max_points_dim=max(len(drive.dw_points(sa, d)) for d in range(sa.dim)))
     return out
@@ -170,4 +175,4 @@ def selftest():
     assert tree_violation([1, 1, 0]) == "end-levels"
 
 
-SUBS = [Sub("history", strategy, run, dict(quick=1600, thorough=20000), budget_s=dict(quick=50, thorough=600))]
+SUBS = [Sub("history", strategy, run, dict(quick=4000, thorough=60000), budget_s=dict(quick=50, thorough=600))]
